@@ -4,4 +4,4 @@ From NV Require Import Base.Bytes C12.Str C12.Model C12.Tables.
 Extraction Language OCaml.
 Extraction "c12_model.ml" lower upper endswith iendswith os_splitext removesuffix_dot
   parse_filename types_filenames splitext_addext filespec_to_file_map sniff_name ext_valid
-  path_maybe_image load_class opener_index targets save_class all_classes opener_keys image_opener_keys save_suffixes.
+  path_maybe_image load_class opener_index targets save_class features mc sniff_ok load_by_header writer_sig predict cifti_intents all_classes opener_keys image_opener_keys save_suffixes.
